@@ -150,6 +150,10 @@ type RunCtx struct {
 
 var cur *RunCtx
 
+// execHashes, when non-nil (determinism self-test), collects a hash of the
+// complete outcome of every execution.
+var execHashes *[]uint64
+
 // recordRuns, when non-nil (replay mode), collects every execution a judge
 // performs so that the replay can print the full event traces.
 var recordRuns *[]RunRecord
@@ -234,6 +238,9 @@ func Execute(sc *Scenario, sched *simrt.Schedule) (out *Outcome) {
 		out.Trace = w.Trace
 		if recordRuns != nil {
 			*recordRuns = append(*recordRuns, RunRecord{Ops: sc.Ops, Outcome: out})
+		}
+		if execHashes != nil {
+			*execHashes = append(*execHashes, hashStr(mustJSON(out))^out.TraceHash)
 		}
 		out.Stats = w.Stats
 		if w.Sched != nil {
